@@ -5,7 +5,7 @@
     implementation on every check run (Model/HeaderRun.v, [c07_step] is the
     very function the histories below are made of). *)
 From Coq Require Import ZArith List Bool.
-From Hts Require Import Base.Prim Model.Header Model.HeaderRun Proofs.HeaderInv Proofs.HeaderWorld Proofs.HeaderHist Proofs.HeaderMerge Proofs.HeaderText Proofs.HeaderNum Proofs.HeaderFields Proofs.HeaderRT Proofs.HeaderBin.
+From Hts Require Import Base.Prim Model.Header Model.HeaderRun Proofs.HeaderInv Proofs.HeaderWorld Proofs.HeaderHist Proofs.HeaderMerge Proofs.HeaderText Proofs.HeaderNum Proofs.HeaderFields Proofs.HeaderRT Proofs.HeaderBin Proofs.HeaderWF.
 Import ListNotations.
 Open Scope Z_scope.
 
@@ -81,6 +81,56 @@ Theorem header_binary_roundtrip :
       marshal_text w' hd' = Ok text /\ encode_binary w' hd' = Ok b.
 Proof. exact binary_roundtrip. Qed.
 Print Assumptions header_binary_roundtrip.
+
+(** WFH for every header built through the API.  The opaque parsers satisfy
+    the laws: a canonical value is a fixed point of parsing and contains no
+    TAB, LF or CR.  [clean_op]: the values given to an operation contain no TAB,
+    LF or CR (comments: no LF/CR), checksums have 16 bytes, dates and URIs are
+    canonical, a text given to NewHeader/UnmarshalText has CR only as the last
+    byte of a line, and the version is not set to the empty string (an @HD
+    field only together with a version).  Lengths and insert sizes are checked
+    by the constructors themselves.  Binary decoding as a step of a history is
+    excluded ([clean_op (ODecode _) = False]).  Then from the empty world the
+    history runs to the end, HInv holds and every header satisfies WFH. *)
+Theorem wfh_preserved :
+  forall (parse_time parse_uri : str -> option str),
+    (forall v d, parse_time v = Some d -> parse_time d = Some d /\ clean d) ->
+    (forall v u, parse_uri v = Some u -> parse_uri u = Some u /\ clean u) ->
+    forall ops, Forall (clean_op parse_time parse_uri) ops ->
+    exists w e, c07_exec parse_time parse_uri world0 env0 ops = Ok (w, e) /\ WInv w /\
+      forall h hd, nth_error (w_h w) h = Some hd -> WFH parse_time parse_uri w hd.
+Proof. exact wfh_preserved_lemma. Qed.
+Print Assumptions wfh_preserved.
+
+(** Hence the round trips for every header of every world reached by a clean
+    history, with no hypothesis on the header (the binary one keeps the
+    condition that the sizes fit the int32 fields of the format). *)
+Theorem header_text_roundtrip_api :
+  forall (parse_time parse_uri : str -> option str),
+    (forall v d, parse_time v = Some d -> parse_time d = Some d /\ clean d) ->
+    (forall v u, parse_uri v = Some u -> parse_uri u = Some u /\ clean u) ->
+    forall ops, Forall (clean_op parse_time parse_uri) ops ->
+    exists w e, c07_exec parse_time parse_uri world0 env0 ops = Ok (w, e) /\
+      forall h hd text, nth_error (w_h w) h = Some hd -> marshal_text w hd = Ok text ->
+        exists w' hd', new_header parse_time parse_uri w (Some text) [] = Ok (w', 0) /\ WInv w' /\
+          nth_error (w_h w') (length (w_h w)) = Some hd' /\ view w' hd' = view w hd /\
+          marshal_text w' hd' = Ok text /\ encode_binary w' hd' = encode_binary w hd.
+Proof. exact text_roundtrip_api. Qed.
+Print Assumptions header_text_roundtrip_api.
+
+Theorem header_binary_roundtrip_api :
+  forall (parse_time parse_uri : str -> option str),
+    (forall v d, parse_time v = Some d -> parse_time d = Some d /\ clean d) ->
+    (forall v u, parse_uri v = Some u -> parse_uri u = Some u /\ clean u) ->
+    forall ops, Forall (clean_op parse_time parse_uri) ops ->
+    exists w e, c07_exec parse_time parse_uri world0 env0 ops = Ok (w, e) /\
+      forall h hd text rs b, nth_error (w_h w) h = Some hd -> marshal_text w hd = Ok text ->
+        objs (w_r w) (t_items (h_R hd)) = Some rs -> fits_int32 text rs -> encode_binary w hd = Ok b ->
+        exists w' hd', decode_binary parse_time parse_uri w b = Ok (w', 0) /\ WInv w' /\
+          nth_error (w_h w') (length (w_h w)) = Some hd' /\ view w' hd' = view w hd /\
+          marshal_text w' hd' = Ok text /\ encode_binary w' hd' = Ok b.
+Proof. exact binary_roundtrip_api. Qed.
+Print Assumptions header_binary_roundtrip_api.
 
 (** The codecs inside the text: decimal and hexadecimal. *)
 Theorem header_number_codecs :
